@@ -4,6 +4,12 @@
 
 #pragma once
 
+#ifdef BBLANCHON_ARDUINOJSON_VERIF
+namespace verif {
+struct Inspector;
+}
+#endif
+
 #include <ArduinoJson/Configuration.hpp>
 #include <ArduinoJson/Polyfills/preprocessor.hpp>
 #include <ArduinoJson/version.hpp>
